@@ -1304,7 +1304,7 @@ impl<'a> TypedArrayAccessor<'a> {
     fn raw_key(&self, row: usize) -> u64 {
         match self {
             TypedArrayAccessor::DictString(arr) => {
-                if arr.is_null(row) {
+                if dict_string_is_null(arr, row) {
                     u64::MAX
                 } else {
                     // Key on the VALUE bytes, not the index: different row
@@ -1396,7 +1396,7 @@ impl<'a> TypedArrayAccessor<'a> {
     fn extract_scalar(&self, row: usize) -> ScalarValue {
         match self {
             TypedArrayAccessor::DictString(arr) => {
-                if arr.is_null(row) {
+                if dict_string_is_null(arr, row) {
                     ScalarValue::Null
                 } else {
                     let values = arr.values().as_any().downcast_ref::<StringArray>().unwrap();
@@ -1441,6 +1441,19 @@ impl<'a> TypedArrayAccessor<'a> {
             TypedArrayAccessor::Other(arr) => extract_scalar(arr, row),
         }
     }
+}
+
+/// A dictionary-encoded string is NULL when its key is NULL **or** when the
+/// key points at a NULL dictionary value: join gathers build dictionaries
+/// straight over the build side's strings, NULLs included, with every key
+/// valid.
+#[inline]
+fn dict_string_is_null(
+    arr: &arrow::array::DictionaryArray<arrow::datatypes::Int32Type>,
+    row: usize,
+) -> bool {
+    use arrow::array::Array;
+    arr.is_null(row) || arr.values().is_null(arr.key(row).unwrap_or(0))
 }
 
 /// Maximum number of groups for perfect hash mode.
